@@ -389,9 +389,192 @@ def _thread_flag_ifs(fn):
                 break
 
 
+import os as _os
+_SKIP = set(filter(None, _os.environ.get("CANON_SKIP", "E10,E11,E17").split(",")))
+# E10 / E11 / E17 change the canonical form of functions of the reference tree (1 / 20 / 1 functions) and are held back
+# until the rules that look at those functions have been re-validated against them (tools/canon_diff.py)
+
+
+def _terminates(block) -> bool:
+    """Does every path through the statement list end in return / raise / continue / break?"""
+    if not block:
+        return False
+    s = block[-1]
+    if isinstance(s, (ast.Return, ast.Raise, ast.Continue, ast.Break)):
+        return True
+    if isinstance(s, ast.If) and s.orelse:
+        return _terminates(s.body) and _terminates(s.orelse)
+    return False
+
+
+def _no_else_after_jump(fn):
+    """E11: `if T: A(jumps) else: B`  ->  `if T: A` ; B     (and the mirror image when only the else branch jumps:
+    `if T: A else: B(jumps)` -> `if not T: B` ; A).  Guard-clause style is the normal form."""
+    changed = True
+    while changed:
+        changed = False
+        for n in ast.walk(fn):
+            for b in _blocks(n):
+                for i, s in enumerate(b):
+                    if isinstance(s, ast.If) and s.orelse and not (len(s.orelse) == 1 and isinstance(s.orelse[0], ast.If) and False):
+                        if _terminates(s.body):
+                            rest = s.orelse
+                            s.orelse = []
+                            b[i + 1:i + 1] = rest
+                            changed = True
+                            break
+                        if _terminates(s.orelse) and not _terminates(s.body):
+                            body = s.body
+                            s.test = _negate(s.test)
+                            s.body = s.orelse
+                            s.orelse = []
+                            b[i + 1:i + 1] = body
+                            changed = True
+                            break
+                if changed:
+                    break
+            if changed:
+                break
+
+
+def _thread_result_returns(fn):
+    """E18: a result variable that is bound at the end of every leaf of an if-tree and only read by the `return`
+    that follows is replaced by returns in the leaves:
+
+        if A: r = X            if A: return X
+        else: S; r = Y   ==>   S; return Y
+        return r
+    (also when the variable has a default bound right before the tree: `r = D; if A: r = X` `return r`)."""
+    changed = True
+    while changed:
+        changed = False
+        st, ld = _name_counts(fn)
+        for n in ast.walk(fn):
+            for b in _blocks(n):
+                for i in range(len(b) - 1):
+                    a, t = b[i], b[i + 1]
+                    if not (isinstance(a, ast.If) and isinstance(t, ast.Return) and isinstance(t.value, ast.Name)):
+                        continue
+                    r = t.value.id
+                    if ld.get(r, 0) != 1:
+                        continue
+                    default = None
+                    if not a.orelse:
+                        # needs `r = D` right before the if
+                        if i == 0:
+                            continue
+                        d = b[i - 1]
+                        if not (isinstance(d, ast.Assign) and len(d.targets) == 1 and isinstance(d.targets[0], ast.Name) and d.targets[0].id == r and _pure(d.value)):
+                            continue
+                        if any(isinstance(x, ast.Name) and x.id == r for x in ast.walk(a.test)):
+                            continue
+                        default = d
+
+                    def leaves(block, acc):
+                        s_ = block[-1] if block else None
+                        if isinstance(s_, ast.Assign) and len(s_.targets) == 1 and isinstance(s_.targets[0], ast.Name) and s_.targets[0].id == r:
+                            acc.append((block, s_))
+                            return True
+                        if isinstance(s_, ast.If) and s_.orelse:
+                            return leaves(s_.body, acc) and leaves(s_.orelse, acc)
+                        return False
+                    acc = []
+                    ok = leaves(a.body, acc) and (leaves(a.orelse, acc) if a.orelse else True)
+                    n_bind = len(acc) + (1 if default is not None else 0)
+                    if not ok or st.get(r, 0) != n_bind:
+                        continue
+                    for (blk, bind) in acc:
+                        blk[-1] = ast.copy_location(ast.Return(value=bind.value), bind)
+                    if default is not None:
+                        t.value = default.value
+                        del b[i - 1]
+                    else:
+                        del b[i + 1]
+                    changed = True
+                    break
+                if changed:
+                    break
+            if changed:
+                break
+
+
+def _loops_to_comprehensions(fn):
+    """E10: `r = []` ; `for v in it: r.append(E)` / `for v in it: if C: r.append(E)`  ->  `r = [E for v in it if C]`
+    (likewise `r = {}` with `r[K] = V`, `r = set()` with `r.add(E)`), when the loop body is exactly that."""
+    for n in ast.walk(fn):
+        for b in _blocks(n):
+            i = 0
+            while i < len(b) - 1:
+                d, lp = b[i], b[i + 1]
+                i += 1
+                if not (isinstance(d, ast.Assign) and len(d.targets) == 1 and isinstance(d.targets[0], ast.Name) and isinstance(lp, ast.For) and not lp.orelse):
+                    continue
+                r = d.targets[0].id
+                kind = None
+                if isinstance(d.value, ast.List) and not d.value.elts:
+                    kind = "list"
+                elif isinstance(d.value, ast.Dict) and not d.value.keys:
+                    kind = "dict"
+                elif isinstance(d.value, ast.Call) and isinstance(d.value.func, ast.Name) and d.value.func.id == "set" and not d.value.args:
+                    kind = "set"
+                if kind is None or len(lp.body) != 1:
+                    continue
+                inner = lp.body[0]
+                conds = []
+                if isinstance(inner, ast.If) and not inner.orelse and len(inner.body) == 1:
+                    conds = [inner.test]
+                    inner = inner.body[0]
+                elt = None
+                if kind in ("list", "set") and isinstance(inner, ast.Expr) and isinstance(inner.value, ast.Call) and isinstance(inner.value.func, ast.Attribute) \
+                        and isinstance(inner.value.func.value, ast.Name) and inner.value.func.value.id == r and len(inner.value.args) == 1 and not inner.value.keywords \
+                        and inner.value.func.attr == ("append" if kind == "list" else "add"):
+                    elt = inner.value.args[0]
+                    mk = ast.ListComp if kind == "list" else ast.SetComp
+                    used = any(isinstance(x, ast.Name) and x.id == r for x in ast.walk(elt)) or any(isinstance(x, ast.Name) and x.id == r for c in conds for x in ast.walk(c)) \
+                        or any(isinstance(x, ast.Name) and x.id == r for x in ast.walk(lp.iter))
+                    if used:
+                        continue
+                    comp = mk(elt=elt, generators=[ast.comprehension(target=lp.target, iter=lp.iter, ifs=conds, is_async=0)])
+                elif kind == "dict" and isinstance(inner, ast.Assign) and len(inner.targets) == 1 and isinstance(inner.targets[0], ast.Subscript) \
+                        and isinstance(inner.targets[0].value, ast.Name) and inner.targets[0].value.id == r:
+                    k_, v_ = inner.targets[0].slice, inner.value
+                    used = any(isinstance(x, ast.Name) and x.id == r for e_ in [k_, v_, lp.iter] + conds for x in ast.walk(e_))
+                    if used:
+                        continue
+                    comp = ast.DictComp(key=k_, value=v_, generators=[ast.comprehension(target=lp.target, iter=lp.iter, ifs=conds, is_async=0)])
+                else:
+                    continue
+                d.value = ast.copy_location(comp, lp)
+                del b[i]
+                i -= 1
+
+
+def _get_with_default(fn):
+    """E17: `d[k] if k in d else v` -> `d.get(k, v)` ; `v if k not in d else d[k]` likewise."""
+    class T(ast.NodeTransformer):
+        def visit_IfExp(self, n):
+            self.generic_visit(n)
+            t = n.test
+            if isinstance(t, ast.Compare) and len(t.ops) == 1 and isinstance(t.ops[0], (ast.In, ast.NotIn)):
+                pos, neg = (n.body, n.orelse) if isinstance(t.ops[0], ast.In) else (n.orelse, n.body)
+                k, dct = t.left, t.comparators[0]
+                if isinstance(pos, ast.Subscript) and ast.dump(pos.value) == ast.dump(dct) and ast.dump(pos.slice) == ast.dump(k) and _pure(dct) and _pure(k):
+                    return ast.copy_location(ast.Call(func=ast.Attribute(value=dct, attr="get", ctx=ast.Load()), args=[k, neg], keywords=[]), n)
+            return n
+    T().visit(fn)
+
+
 def _canon_function(fn):
     _split_withs(fn)
     _thread_flag_ifs(fn)
+    if "E18" not in _SKIP:
+        _thread_result_returns(fn)
+    if "E10" not in _SKIP:
+        _loops_to_comprehensions(fn)
+    if "E17" not in _SKIP:
+        _get_with_default(fn)
+    if "E11" not in _SKIP:
+        _no_else_after_jump(fn)
     _empty_then(fn)
     _ExprNF().visit(fn)
     _split_tuple_assigns(fn)
